@@ -104,19 +104,15 @@ Proof.
     + specialize (N l2 Hl2 Hc2). lia.
 Qed.
 
-Lemma rollback_fold_keeps job key j0 (Hne : j0 <> job) locsl : forall m js,
+Lemma rollback_fold_keeps job key j0 (Hne : j0 <> job) (dns : list (string * string)) : forall m js,
   lookup key m = Some js -> In j0 js ->
-  exists js', lookup key (fold_left (fun m c => match c with
-                                        | [] => m
-                                        | (d, nm) :: _ =>
-                                            match lookup (d ++ "/" ++ nm) m with
-                                            | Some js => replace (d ++ "/" ++ nm) (remove_first job js) m
-                                            | None => m
-                                            end
-                                        end) locsl m) = Some js' /\ In j0 js'.
+  exists js', lookup key (fold_left (fun m dn =>
+                               match lookup (fst dn ++ "/" ++ snd dn) m with
+                               | Some js => replace (fst dn ++ "/" ++ snd dn) (remove_first job js) m
+                               | None => m
+                               end) dns m) = Some js' /\ In j0 js'.
 Proof.
-  induction locsl as [|c locsl IH]; cbn [fold_left]; intros m js Hl Hi; [exists js; auto|].
-  destruct c as [|[d nm] c']; [apply (IH m js Hl Hi)|].
+  induction dns as [|[d nm] dns IH]; cbn [fold_left fst snd]; intros m js Hl Hi; [exists js; auto|].
   destruct (lookup (d ++ "/" ++ nm) m) as [js1|] eqn:E1; [|apply (IH m js Hl Hi)].
   destruct (String.eqb_spec key (d ++ "/" ++ nm)) as [Ek|Ek].
   - subst key. rewrite E1 in Hl. inversion Hl. subst js1.
